@@ -40,6 +40,10 @@ def _problem(c, m, n, noise_form, prior_form, noise_param='cov', prior_param='co
         model = LinearModel(lambda x: x[::2], _adj, range_geometry=m, domain_geometry=n)
     elif geom == 'default': model = LinearModel(A)
     elif geom == 'Continuous1D': model = LinearModel(A, range_geometry=cuqi.geometry.Continuous1D(m), domain_geometry=cuqi.geometry.Continuous1D(n))
+    elif geom == 'KLfull':
+        # expansion geometry with as many modes as nodes (par_dim == fun_dim): the stored matrix acts on FUNCTION values
+        gd = cuqi.geometry.KLExpansion(np.arange(n), num_modes=n)
+        model = LinearModel(A, range_geometry=m, domain_geometry=gd)
     elif geom == 'Step':
         gd = cuqi.geometry.StepExpansion(np.linspace(0, 1, 2 * n), n_steps=n)
         A = c.mat('A', m, 2 * n); model = LinearModel(A, range_geometry=m, domain_geometry=gd)
@@ -47,6 +51,30 @@ def _problem(c, m, n, noise_form, prior_form, noise_param='cov', prior_param='co
     y = _g(c, 'noise', model(x), noise_form, m, noise_param, geometry=m if geom in ('default', 'subsample_view') else model.range_geometry, gname='y')
     data = c.vec('yobs', m)
     return BayesianProblem(y, x).set_data(y=data), n
+
+
+def _documented_precision(c, name, form, n, param):
+    """the precision matrix DOCUMENTED for a Gaussian given through `param` (cov: Sigma; prec: Sigma^-1; sqrtcov R: R^T R; sqrtprec R:
+    (R^T R)^-1) - rebuilt from the same named inputs the problem was built from, independently of the Gaussian object"""
+    if form == 'scalar': v = np.array([c.real(f'{name}_v', pos=True)] * n, dtype=object if c.sym else float)
+    elif form == 'vector': v = c.vec(f'{name}_v', n, pos=True)
+    else: return None
+    d = {'cov': 1 / v, 'prec': v, 'sqrtcov': 1 / v ** 2, 'sqrtprec': v ** 2}[param]
+    P = np.zeros((n, n), dtype=object if c.sym else float)
+    for i in range(n): P[i, i] = d[i]
+    return P
+
+
+def map_documented(c, m, n, noise_form, prior_form, noise_param, prior_param, compute_cov=False):
+    """independent oracle: the estimate solves the normal equations of the posterior DOCUMENTED by the inputs,
+    (A^T Pn A + Pp) x = A^T Pn y + Pp mu, whatever internal square roots the Gaussian objects hold; a refusal is admissible"""
+    BP, n = _problem(c, m, n, noise_form, prior_form, noise_param, prior_param, 'default')
+    if compute_cov:
+        BP.prior.compute_cov(); BP.likelihood.distribution.compute_cov()        # the documented way to reach the closed form
+    xmap = np.asarray(BP.MAP(disp=False))
+    A = c.mat('A', m, n); mu = c.vec('mu', n); y = c.vec('yobs', m)
+    Pn = _documented_precision(c, 'noise', noise_form, m, noise_param); Pp = _documented_precision(c, 'prior', prior_form, n, prior_param)
+    c.eq('estimate_solves_the_normal_equations_of_the_documented_posterior', (A.T @ Pn @ A + Pp) @ xmap, A.T @ (Pn @ y) + Pp @ mu, tol=1e-6)
 
 
 def map_closed_form(c, m, n, noise_form, prior_form, noise_param='cov', prior_param='cov', geom='default'):
@@ -60,8 +88,15 @@ def map_closed_form(c, m, n, noise_form, prior_form, noise_param='cov', prior_pa
     c.holds('map_has_parameter_shape', np.shape(xmap) == (n,), note=str(np.shape(xmap)))
     c.holds('map_carries_posterior_geometry', xmap.geometry == post.geometry)
     g = c.grad_at(lambda v: post.logd(v), np.asarray(xmap))
-    c.eq('gradient_of_posterior_logd_vanishes_at_the_returned_point', g, np.zeros(n) if not c.sym else np.array([core.SReal(z3.RealVal(0))] * n, dtype=object), tol=1e-4)
-    c.holds('solver_info_says_direct', xmap.info.get('solver') == 'direct')
+    direct = xmap.info.get('solver') == 'direct'
+    if c.sym or direct:
+        c.eq('gradient_of_posterior_logd_vanishes_at_the_returned_point', g, np.zeros(n) if not c.sym else np.array([core.SReal(z3.RealVal(0))] * n, dtype=object), tol=1e-4)
+    else:
+        # the estimate came from the numerical optimiser (geometries that transform the parameters): stationarity up to its accuracy
+        g0 = c.grad_at(lambda v: post.logd(v), np.asarray(xmap) + 1.0)
+        c.holds('gradient_of_posterior_logd_vanishes_at_the_returned_point', bool(np.linalg.norm(g) <= 1e-4 * (1 + np.linalg.norm(g0))), note=f"|grad| = {np.linalg.norm(g):.2e}")
+    # the closed form is only taken when the model matrix is the parameter-to-parameter map
+    c.holds('closed_form_only_for_geometries_that_do_not_transform_the_parameters', direct == (geom in ('default', 'Continuous1D', 'subsample_view')) or c.sym, note=str(xmap.info.get('solver')))
 
 
 def map_after_compute_cov(c, m=2, n=2):
@@ -152,6 +187,24 @@ def optimisation_route(c, which, prior_kind):
     c.eq('estimate_with_given_start_is_the_optimisers_result', np.asarray(est2), call2.x)
 
 
+def optimisation_failure(c):
+    """'if a requested estimate cannot be computed correctly the call fails instead of returning another point': the objective is not a
+    number at the default start point (and the optimiser gives up there); the call must raise, or return a point where the posterior
+    density is a number and the gradient vanishes (bounded stand-in: native)"""
+    shift = 4.0 + abs(c.real('shift'))
+    m2 = Model(lambda x: np.log(x - shift), 2, 2)
+    x2 = Gaussian(np.zeros(2), 1.0, name='x'); y2 = Gaussian(m2(x2), 0.1, name='y')
+    BP = BayesianProblem(y2, x2).set_data(y=np.zeros(2))
+    import io, contextlib, warnings
+    try:
+        with contextlib.redirect_stdout(io.StringIO()), warnings.catch_warnings():
+            warnings.simplefilter('ignore'); est = np.asarray(BP.MAP(disp=False))
+    except Exception as e:
+        c.holds('failure_is_reported_by_raising', True); return
+    v = BP.posterior.logd(est)
+    c.holds('a_returned_point_has_a_finite_posterior_density', bool(np.all(np.isfinite(v))), note=f"returned {est} with posterior log-density {v}")
+
+
 def optimisation_native(c, prior_kind):
     """numeric twin (bounded): first-order optimality of the returned point on generated unimodal problems"""
     n = 2; m = 3
@@ -176,23 +229,29 @@ def jobs(tier):
             (2, 2, 'vector', 'vector', 'cov', 'cov', 'default'), (2, 2, 'scalar', 'scalar', 'cov', 'cov', 'Continuous1D'),
             (2, 2, 'scalar', 'scalar', 'cov', 'cov', 'Step'),
             (2, 2, 'vector', 'vector', 'prec', 'cov', 'default'), (2, 2, 'vector', 'vector', 'cov', 'sqrtprec', 'default'), (2, 2, 'scalar', 'scalar', 'sqrtcov', 'prec', 'default'),
-            (2, 2, 'dense', 'vector', 'cov', 'cov', 'default'), (2, 4, 'scalar', 'vector', 'cov', 'cov', 'subsample_view')]        # correlated noise: the covariance is a stored matrix, not a temporary
+            (2, 2, 'dense', 'vector', 'cov', 'cov', 'default'), (2, 4, 'scalar', 'vector', 'cov', 'cov', 'subsample_view'), (2, 2, 'scalar', 'scalar', 'cov', 'cov', 'KLfull')]        # correlated noise: the covariance is a stored matrix, not a temporary
     if not q: cfgs += [(1, 1, 'scalar', 'scalar', 'cov', 'cov', 'default'), (2, 2, 'dense', 'dense', 'cov', 'cov', 'default'), (2, 2, 'vector', 'dense', 'cov', 'cov', 'default')]
     for (m, n, nf, pf, npar, ppar, geom) in cfgs:
         J.append(Job(f'MAP:closed_form:m={m}:n={n}:noise={npar}/{nf}:prior={ppar}/{pf}:geometry={geom}',
                      lambda c, a=(m, n, nf, pf, npar, ppar, geom): map_closed_form(c, *a),
                      # both covariances dense: the stationarity identity (14 symbols, three nested square roots) exceeds the normaliser's
                      # monomial budget and the SMT solvers' time: bounded stand-in, not counted as proved
-                     'B' if (nf, pf) == ('dense', 'dense') else 'Pbox', FL, allow_exc=True, rtol=1e-4, timeout=600))
+                     'B' if ((nf, pf) == ('dense', 'dense') or geom in ('Step', 'KLfull')) else 'Pbox', FL, allow_exc=True, rtol=1e-4, timeout=600))   # (Step/KLfull: numerical optimiser, native only)
     for (m, n, nf, pf) in [(2, 2, 'scalar', 'scalar'), (2, 2, 'vector', 'vector'), (1, 2, 'scalar', 'vector')] + [(2, 2, 'dense', 'vector')] + ([] if q else [(2, 2, 'dense', 'dense')]):
         J.append(Job(f'sample_posterior:direct:m={m}:n={n}:noise={nf}:prior={pf}', lambda c, a=(m, n, nf, pf): direct_sampling(c, *a), 'B' if 'dense' in (nf, pf) else 'Pbox',   # B B^T H = I with a dense covariance exceeds the provers' budget: bounded stand-in
                      [f'{PR}:BayesianProblem._sampleMapCholesky'] + FL, rtol=1e-4, timeout=600, allow_exc=True))
     J.append(Job('sample_posterior:public_entry_point:m=2:n=2:noise=vector:prior=vector', lambda c: direct_sampling(c, 2, 2, 'vector', 'vector', True), 'Pbox',
                  [f'{PR}:BayesianProblem.sample_posterior', f'{PR}:BayesianProblem._sampleMapCholesky'] + FL, rtol=1e-4, timeout=600, allow_exc=True))
+    for (nf, pf, npar, ppar, cc) in (('vector', 'vector', 'cov', 'cov', False), ('scalar', 'vector', 'cov', 'cov', False), ('vector', 'vector', 'prec', 'cov', True),
+                                     ('vector', 'vector', 'cov', 'prec', True), ('vector', 'scalar', 'sqrtprec', 'sqrtcov', True), ('scalar', 'vector', 'sqrtcov', 'sqrtprec', True)):
+        J.append(Job(f'MAP:documented_posterior:noise={npar}/{nf}:prior={ppar}/{pf}' + (':after_compute_cov' if cc else ''),
+                     lambda c, a=(2, 2, nf, pf, npar, ppar, cc): map_documented(c, *a), 'Pbox', FL + ['cuqi.distribution._gaussian:get_sqrtprec_from_prec', 'cuqi.distribution._gaussian:Gaussian.compute_cov'],
+                     allow_exc=True, rtol=1e-4, timeout=600))
     J.append(Job('MAP:closed_form:after_compute_cov:sqrtprec_triangular_and_vector_prec', map_after_compute_cov, 'Pbox', FL + ['cuqi.distribution._gaussian:Gaussian.compute_cov'], allow_exc=True, rtol=1e-4, timeout=600))
     for which in ('MAP', 'ML'):
         for pk in ('Gaussian', 'Cauchy'):
             J.append(Job(f'{which}:optimisation_route:wrapper:prior={pk}', lambda c, w=which, pk=pk: optimisation_route(c, w, pk), 'Pbox',
                          [f'{PR}:BayesianProblem._solve_max_point', f'{PR}:BayesianProblem.{which}'], extra=_opt_extra, num=False))
+    J.append(Job('MAP:optimisation_route:objective_undefined_at_the_start_point', optimisation_failure, 'B', [f'{PR}:BayesianProblem._solve_max_point'], nnum=3))
     J.append(Job('MAP:optimisation_route:first_order_optimality', lambda c: optimisation_native(c, 'Gaussian'), 'B', [f'{PR}:BayesianProblem._solve_max_point'], nnum=6))
     return J
